@@ -297,17 +297,20 @@ pub fn with_arity_noise(s: BoxedStrategy<Cmd>) -> BoxedStrategy<Cmd> {
         .boxed()
 }
 
-/// The C03 command mix: lists, sets, hashes.
-pub fn c03_cmd() -> BoxedStrategy<Cmd> {
-    let k = key_nonempty();
-    let m = member();
+fn c03_misc(k: BoxedStrategy<Bytes>) -> BoxedStrategy<Cmd> {
     prop_oneof![
         // a few string keys so that wrong-type paths are hit
         2 => cmd3("SET", k.clone(), value()),
         2 => cmd_multi("DEL", k.clone(), vec_of(k.clone(), 0, 1)),
         3 => cmd2("TYPE", k.clone()),
         2 => cmd_multi("EXISTS", k.clone(), vec_of(k.clone(), 0, 1)),
-        // lists
+    ]
+    .boxed()
+}
+
+pub fn c03_list(k: BoxedStrategy<Bytes>) -> BoxedStrategy<Cmd> {
+    let m = member();
+    prop_oneof![
         8 => cmd_multi("LPUSH", k.clone(), vec_of(m.clone(), 1, 5)),
         8 => cmd_multi("RPUSH", k.clone(), vec_of(m.clone(), 1, 5)),
         4 => cmd2("LPOP", k.clone()),
@@ -318,7 +321,13 @@ pub fn c03_cmd() -> BoxedStrategy<Cmd> {
         5 => cmd4("LSET", k.clone(), int_arg(), m.clone()),
         6 => cmd4("LTRIM", k.clone(), int_arg(), int_arg()),
         6 => cmd4("LREM", k.clone(), int_arg(), m.clone()),
-        // sets
+    ]
+    .boxed()
+}
+
+pub fn c03_set(k: BoxedStrategy<Bytes>) -> BoxedStrategy<Cmd> {
+    let m = member();
+    prop_oneof![
         8 => cmd_multi("SADD", k.clone(), vec_of(m.clone(), 1, 5)),
         5 => cmd_multi("SREM", k.clone(), vec_of(m.clone(), 1, 4)),
         3 => cmd2("SMEMBERS", k.clone()),
@@ -331,7 +340,13 @@ pub fn c03_cmd() -> BoxedStrategy<Cmd> {
         3 => cmd3("SPOP", k.clone(), int_arg()),
         2 => cmd2("SRANDMEMBER", k.clone()),
         4 => cmd3("SRANDMEMBER", k.clone(), int_arg()),
-        // hashes
+    ]
+    .boxed()
+}
+
+pub fn c03_hash(k: BoxedStrategy<Bytes>) -> BoxedStrategy<Cmd> {
+    let m = member();
+    prop_oneof![
         8 => proptest::collection::vec((m.clone(), value()), 1..=3).prop_flat_map({
             let k = k.clone();
             move |p| { let p = p.clone(); k.clone().prop_map(move |k| { let mut v = vec![bs("HSET"), k]; for (f, x) in &p { v.push(f.clone()); v.push(x.clone()); } v }) }
@@ -352,6 +367,24 @@ pub fn c03_cmd() -> BoxedStrategy<Cmd> {
         6 => cmd4("HINCRBY", k.clone(), m.clone(), int_arg()),
     ]
     .boxed()
+}
+
+/// The C03 command mix for one history: one focus family gets most of the weight so that
+/// same-type interactions run deep, the others supply type clashes.
+pub fn c03_cmd_focus(focus: u8) -> BoxedStrategy<Cmd> {
+    let k = key_nonempty();
+    let w = |f: u8| if f == focus { 14u32 } else { 2u32 };
+    prop_oneof![
+        2 => c03_misc(k.clone()),
+        w(0) => c03_list(k.clone()),
+        w(1) => c03_set(k.clone()),
+        w(2) => c03_hash(k.clone()),
+    ]
+    .boxed()
+}
+
+pub fn c03_cmd() -> BoxedStrategy<Cmd> {
+    c03_cmd_focus(3)
 }
 
 /// Score arguments drawn to collide.
@@ -389,6 +422,7 @@ pub fn c04_cmd() -> BoxedStrategy<Cmd> {
             move |p| { let p = p.clone(); k.clone().prop_map(move |k| { let mut v = vec![bs("ZADD"), k]; for (s, x) in &p { v.push(s.clone()); v.push(x.clone()); } v }) }
         }),
         6 => cmd4("ZINCRBY", k.clone(), score_arg(), m.clone()),
+        3 => cmd4("ZINCRBY", k.clone(), select(vec![bs("inf"), bs("-inf"), bs("+inf")]).boxed(), select(vec![bs("a"), bs("b")]).boxed()),
         6 => cmd_multi("ZREM", k.clone(), vec_of(m.clone(), 1, 3)),
         2 => cmd2("ZPOPMIN", k.clone()),
         2 => cmd2("ZPOPMAX", k.clone()),
@@ -403,6 +437,60 @@ pub fn c04_cmd() -> BoxedStrategy<Cmd> {
         4 => cmd3("ZREVRANK", k.clone(), m.clone()),
         4 => cmd3("ZSCORE", k.clone(), m.clone()),
         3 => cmd2("ZCARD", k.clone()),
+    ]
+    .boxed()
+}
+
+/// Stream IDs drawn to collide: small, far future, u64 edges; plus malformed spellings.
+pub fn stream_id() -> BoxedStrategy<Bytes> {
+    let ms = select(vec!["0", "1", "2", "5", "1000", "99999999999999", "18446744073709551615"]);
+    let seq = select(vec!["0", "1", "7", "18446744073709551615"]);
+    prop_oneof![
+        20 => (ms, seq).prop_map(|(m, s)| format!("{}-{}", m, s).into_bytes()),
+        2 => select(vec![bs("abc"), bs("1"), bs("1-"), bs("-1"), bs("1-2-3"), bs(""), bs("1-a"), bs("a-1"), bs("1.5-0"), bs(" 1-0")]),
+    ]
+    .boxed()
+}
+
+/// The C15 command mix: streams.
+pub fn c15_cmd() -> BoxedStrategy<Cmd> {
+    let k = select(vec![bs("s"), bs("t"), bs("k")]).boxed();
+    let fv = proptest::collection::vec((member(), value()), 1..=3);
+    let count = select(vec![bs("1"), bs("2"), bs("3"), bs("5"), bs("100")]).boxed();
+    let lo = prop_oneof![2 => Just(bs("-")), 5 => stream_id()].boxed();
+    let hi = prop_oneof![2 => Just(bs("+")), 5 => stream_id()].boxed();
+    let range = |name: &'static str, k: BoxedStrategy<Bytes>, a: BoxedStrategy<Bytes>, b: BoxedStrategy<Bytes>, count: BoxedStrategy<Bytes>| {
+        (k, a, b, proptest::option::weighted(0.4, count))
+            .prop_map(move |(k, a, b, c)| {
+                let mut v = vec![bs(name), k, a, b];
+                if let Some(c) = c {
+                    v.push(bs("COUNT"));
+                    v.push(c);
+                }
+                v
+            })
+            .boxed()
+    };
+    prop_oneof![
+        1 => cmd3("SET", k.clone(), value()),
+        2 => cmd_multi("DEL", k.clone(), vec_of(k.clone(), 0, 1)),
+        2 => cmd2("TYPE", k.clone()),
+        14 => (k.clone(), fv.clone()).prop_map(|(k, fv)| { let mut v = vec![bs("XADD"), k, bs("*")]; for (f, x) in fv { v.push(f); v.push(x); } v }),
+        14 => (k.clone(), stream_id(), fv.clone()).prop_map(|(k, id, fv)| { let mut v = vec![bs("XADD"), k, id]; for (f, x) in fv { v.push(f); v.push(x); } v }),
+        8 => cmd_multi("XDEL", k.clone(), vec_of(stream_id(), 1, 3)),
+        4 => (k.clone(), select(vec![bs("0"), bs("1"), bs("2"), bs("3"), bs("5"), bs("100"), bs("abc"), bs("-1")])).prop_map(|(k, n)| vec![bs("XTRIM"), k, bs("MAXLEN"), n]),
+        3 => (k.clone(), select(vec![bs("0"), bs("1"), bs("2"), bs("3"), bs("5"), bs("100")])).prop_map(|(k, n)| vec![bs("XTRIM"), k, bs("MAXLEN"), bs("="), n]),
+        4 => cmd2("XLEN", k.clone()),
+        10 => range("XRANGE", k.clone(), lo.clone(), hi.clone(), count.clone()),
+        10 => range("XREVRANGE", k.clone(), hi.clone(), lo.clone(), count.clone()),
+        8 => (proptest::option::weighted(0.4, count.clone()), proptest::collection::vec((k.clone(), prop_oneof![2 => Just(bs("0")), 2 => Just(bs("$")), 5 => stream_id()]), 1..=2)).prop_map(|(c, ks)| {
+            let mut v = vec![bs("XREAD")];
+            if let Some(c) = c { v.push(bs("COUNT")); v.push(c); }
+            v.push(bs("STREAMS"));
+            for (k, _) in &ks { v.push(k.clone()); }
+            for (_, id) in &ks { v.push(id.clone()); }
+            v
+        }),
     ]
     .boxed()
 }
